@@ -22,6 +22,6 @@ if [ -n "$SEED_NOAPPLY" ]; then
 fi
 git -C /repo apply $D/patch.diff || { echo "patch does not apply to /repo"; exit 1; }
 echo "--- our check ($PROP) with the change applied to /repo:"
-./check $PROP > /tmp/check_seed.out 2>&1; echo "exit=$?"; grep -E "^(VIOLATION|UNDECIDED|CHECKER|OK|KNOWN)" /tmp/check_seed.out | cut -c1-230 | head -8
+VERIF_SELFTEST=1 ./check $PROP > /tmp/check_seed.out 2>&1; echo "exit=$?"; grep -E "^(VIOLATION|UNDECIDED|CHECKER|OK|KNOWN)" /tmp/check_seed.out | cut -c1-230 | head -8
 git -C /repo checkout -- .
 git -C /repo status --short | head -3
